@@ -33,6 +33,44 @@ def _same_failure(vetted, s, cfgname):
     return None
 
 
+_CALLERS = {}
+
+
+def _callers_of(crate):
+    cid = id(crate)
+    if cid not in _CALLERS:
+        m = {}
+        for b in crate.body_list:
+            for n in b.walk():
+                if n.get('k') in ('Call', 'MethodCall') and n.get('callee'):
+                    m.setdefault(n['callee'], set()).add(b.path)
+        _CALLERS[cid] = m
+    return _CALLERS[cid]
+
+
+def _relocated(crate, vetted, s, cfgname):
+    """a site with the same kind and the same canonical text as a vetted one whose function is a caller of this (private)
+    function -- the code was extracted into a helper -- or no longer exists -- the helper was inlined"""
+    key = s['key']
+    kind = key.split(':', 1)[0]
+    fn = _fn_of(key)
+    rest = key[len(kind) + 1 + len(fn):]
+    b = crate.body(fn)
+    private = b is not None and str(b.raw.get('vis', '')).startswith('Restricted') and not b.raw.get('impl_trait')
+    callers = _callers_of(crate).get(fn, set())
+    for k, e in vetted.items():
+        if not k.startswith(kind + ':') or cfgname not in e.get('configs', []):
+            continue
+        f2 = _fn_of(k)
+        if f2 == fn or k[len(kind) + 1 + len(f2):] != rest:
+            continue
+        if (private and f2 in callers) or crate.body(f2) is None:
+            if s['kind'] in ('panic', 'unwrap') and (e.get('when') or {}).get(cfgname) not in (None, s.get('when')):
+                continue
+            return e
+    return None
+
+
 def _fn_of(key):
     # kind:<function path>:<rest>   (function paths contain '::' but the separators are single ':')
     body = key.split(':', 1)[1]
@@ -70,6 +108,10 @@ def check_sites(rep, crate, cfgname, vetted, counts):
                             'well-formed -- either way the vetted invariant no longer describes this site')
             elif s['key'] in vetted:
                 rep.ok('SITE', key, s['where'], fact + ' relies on a vetted invariant: ' + vetted[s['key']]['invariant'], fn=b.path)
+            elif _relocated(crate, vetted, s, cfgname) is not None:
+                twin = _relocated(crate, vetted, s, cfgname)
+                rep.ok('SITE', key, s['where'], fact + f' is the vetted site {twin["key"][:140]} relocated (the code moved into / out of a private helper; same expression '
+                       f'over the same parameters): ' + twin['invariant'], fn=b.path)
             elif s.get('when') and _same_failure(vetted, s, cfgname) is not None:
                 twin = _same_failure(vetted, s, cfgname)
                 rep.ok('SITE', key, s['where'], fact + f' fails under exactly the condition of the vetted site {twin["key"][:120]} of the same function '
